@@ -1210,6 +1210,9 @@ func (env *ExprEnv) call(e *ast.CallExpr) TV {
 		return TV{T: fmt.Sprintf("(select (select %s %s) %s)", v.heapGet(env.heapNow(), rv), m.T, k.T), Ty: types.Typ[types.Bool], Sort: "Bool"}
 	case "fresh":
 		x := env.eval(e.Args[0])
+		if x.Sort == "Slice" {
+			return TV{T: fmt.Sprintf("(> (sl_arr %s) %s)", x.T, v.n0), Ty: types.Typ[types.Bool], Sort: "Bool"}
+		}
 		return TV{T: fmt.Sprintf("(> %s %s)", x.T, v.n0), Ty: types.Typ[types.Bool], Sort: "Bool"}
 	case "typeis":
 		// typeis(x, "pkg.Type")
